@@ -90,6 +90,8 @@ where
             receiver,
             inner
         );
+        #[cfg(pearl_verif)]
+        crate::verif::WorkerGuard::spawned();
         let handle = tokio::spawn(worker.run());
 
         self.state = ObserverState::Running(sender, handle);
